@@ -240,6 +240,13 @@ func drivePFBGuarded(inp []byte, caps, chunks []int, eofwd bool, extra int, limi
 	case r := <-ch:
 		return r
 	case <-timer.C:
+	}
+	// not back in time: give a loaded machine three times as long again before calling it a hang
+	timer.Reset(3 * limit)
+	select {
+	case r := <-ch:
+		return r
+	case <-timer.C:
 		return pfbRun{hang: true}
 	}
 }
@@ -549,7 +556,7 @@ func replayPFBOne(part *pfbPart, path string, line, num int, raw []byte, timer *
 	if run.hang {
 		part.hangs++
 		hangsAll.Add(1)
-		add("pfb read: hang", "Read did not return within 3 s", stim(), exp(), "no return")
+		add("pfb read: hang", "Read did not return within 12 s", stim(), exp(), "no return")
 		return nil
 	}
 	if run.panic != "" {
